@@ -36,6 +36,8 @@ func (k kind) String() string {
 type optUse struct {
 	Ext string   // full name of the extension that defines the option
 	Any []string // message names found as google.protobuf.Any payloads inside the option value (first level)
+	// AnyShape[name] is the set of type URL shapes (see urlShape) under which the payload name occurs.
+	AnyShape map[string][]string
 }
 
 type fieldM struct {
@@ -157,7 +159,13 @@ func buildModel(fds []*descriptorpb.FileDescriptorProto, isImport map[string]boo
 						payload, _ := protowire.ConsumeBytes(val)
 						msg := dynamicpb.NewMessage(md)
 						if err := (proto.UnmarshalOptions{Resolver: types}).Unmarshal(payload, msg); err == nil {
-							out[i].Any = appendUnique(out[i].Any, findAny(msg)...)
+							for _, ref := range findAny(msg) {
+								out[i].Any = appendUnique(out[i].Any, ref.Name)
+								if out[i].AnyShape == nil {
+									out[i].AnyShape = map[string][]string{}
+								}
+								out[i].AnyShape[ref.Name] = appendUnique(out[i].AnyShape[ref.Name], ref.Shape)
+							}
 						}
 					}
 				}
@@ -314,16 +322,45 @@ func appendUnique(dst []string, xs ...string) []string {
 	return dst
 }
 
-// findAny returns the message names used as Any payloads inside msg (not looking inside the payload bytes).
-func findAny(msg protoreflect.Message) []string {
-	var out []string
+// anyRef is one google.protobuf.Any value found inside an option value.
+type anyRef struct {
+	Name  string // the payload message name: what follows the LAST '/' of the type URL (any.proto)
+	Shape string // urlShape of the type URL
+}
+
+// urlShape classifies the prefix of a type URL (everything up to and including the last '/').
+// any.proto: "The last segment of the URL's path must represent the fully qualified name of the
+// type"; the default prefix is type.googleapis.com, a prefix may have a scheme and a path.
+func urlShape(url string) string {
+	i := strings.LastIndexByte(url, '/')
+	if i < 0 {
+		return "no-slash"
+	}
+	prefix := url[:i]
+	switch {
+	case prefix == "type.googleapis.com":
+		return "default"
+	case prefix == "":
+		return "empty-host"
+	case strings.Contains(prefix, "://"):
+		return "scheme"
+	case strings.Contains(prefix, "/"):
+		return "path"
+	}
+	return "single-segment"
+}
+
+// findAny returns the Any payloads used inside msg (not looking inside the payload bytes).
+func findAny(msg protoreflect.Message) []anyRef {
+	var out []anyRef
 	if msg.Descriptor().FullName() == "google.protobuf.Any" {
 		url := msg.Get(msg.Descriptor().Fields().ByNumber(1)).String()
+		name := url
 		if i := strings.LastIndexByte(url, '/'); i >= 0 {
-			url = url[i+1:]
+			name = url[i+1:]
 		}
-		if url != "" {
-			out = append(out, url)
+		if name != "" {
+			out = append(out, anyRef{Name: name, Shape: urlShape(url)})
 		}
 		return out
 	}
@@ -367,6 +404,8 @@ type bounds struct {
 	Full    map[string]bool   // elements that are kept for their own sake (not only as a namespace)
 	Files   map[string]bool   // file paths
 	Why     map[string]string // first reason an element is required
+	// AnyShapes: type URL shapes of the Any payloads the walk demanded (coverage counter only).
+	AnyShapes map[string]bool
 	core    [3]int            // sizes of the walk result proper (before exclude-only widening)
 }
 
@@ -434,6 +473,7 @@ type walker struct {
 	ns       map[string]bool
 	files    map[string]bool
 	why      map[string]string
+	shapes   map[string]bool // type URL shapes of the Any payloads that were demanded
 }
 
 // effExcl: the element is excluded, or it is a map entry that cannot exist without an excluded type.
@@ -618,7 +658,7 @@ func (w *walker) knownExtensions() {
 }
 
 func (m *imageModel) run(fc *filterCase, xc map[string]bool, upper bool) *bounds {
-	w := &walker{m: m, fc: fc, xc: xc, upper: upper, full: map[string]bool{}, explicit: map[string]bool{}, dropped: map[string]bool{}, ns: map[string]bool{}, files: map[string]bool{}, why: map[string]string{}}
+	w := &walker{m: m, fc: fc, xc: xc, upper: upper, full: map[string]bool{}, explicit: map[string]bool{}, dropped: map[string]bool{}, ns: map[string]bool{}, files: map[string]bool{}, why: map[string]string{}, shapes: map[string]bool{}}
 	if len(fc.Include) > 0 {
 		for _, n := range fc.Include {
 			if _, ok := m.El[n]; ok {
@@ -637,7 +677,7 @@ func (m *imageModel) run(fc *filterCase, xc map[string]bool, upper bool) *bounds
 		}
 	}
 	w.knownExtensions()
-	b := &bounds{Present: map[string]bool{}, Full: w.full, Files: w.files, Why: w.why}
+	b := &bounds{Present: map[string]bool{}, Full: w.full, Files: w.files, Why: w.why, AnyShapes: w.shapes}
 	for n := range w.full {
 		b.Present[n] = true
 	}
